@@ -20,7 +20,7 @@ class P(Property):
     harness_bin = 'c16'
     rule = ('cases: vi.enc/vi.size for all values 0..2^16, +-2 around 2^6,2^14,2^30,2^62 and seeded random 62/64-bit values; '
             'vi.dec for all byte strings of length 0..2, every form (1,2,4,8 bytes, minimal and non-minimal) at every truncation length '
-            'and with trailing bytes; sid/sid.add for all four stream kinds x boundary indices x increments 0..usize::MAX. '
+            'and with trailing bytes, and the same encodings as non-contiguous buffers cut at every position (vi.decc); sid/sid.add for all four stream kinds x boundary indices x increments 0..usize::MAX. '
             'non-trivial = distinct (family, form of first byte / value class by bit length, result kind) triples are NOT what is counted; '
             'counted are distinct cases whose input has at least one byte or a value > 0 (i.e. past the empty-input decision)')
 
@@ -59,6 +59,20 @@ class P(Property):
                     for t in range(0, l + 1):
                         out.append('vi.dec ' + (e[:t].hex() or '-'))
                     out.append('vi.dec ' + e.hex() + bytes(rng.getrandbits(8) for _ in range(rng.randint(1, 5))).hex())
+        # the same encodings presented as non-contiguous buffers: every split position (1 or 2 cuts)
+        for x in vals:
+            for l in (1, 2, 4, 8):
+                if x < 2 ** (8 * l - 2):
+                    e = enc(x, l) + bytes(rng.getrandbits(8) for _ in range(rng.randint(0, 3)))
+                    n = len(e)
+                    for i in range(1, n):
+                        out.append('vi.decc %s.%s' % (e[:i].hex(), e[i:].hex()))
+                        for j in range(i + 1, n):
+                            if (i + j + x) % 3 == 0 or l <= 4:
+                                out.append('vi.decc %s.%s.%s' % (e[:i].hex(), e[i:j].hex(), e[j:].hex()))
+                    # truncated and split
+                    for t in range(2, l):
+                        out.append('vi.decc %s.%s' % (e[:1].hex(), e[1:t].hex()))
         nr = 3000 if tier == 'quick' else 300000
         for _ in range(nr):
             n = rng.randint(3, 12)
@@ -84,7 +98,7 @@ class P(Property):
         # the integer carried by UnexpectedEnd and the buffer position after a failed decode are not
         # part of the property: a truncated encoding must be *reported as such*
         w = out.split()
-        if case.startswith('vi.dec') and w and w[0] == 'err':
+        if case.startswith('vi.dec') and w and w[0] == 'err':  # vi.dec and vi.decc
             return 'err'
         if w and w[0] == 'panic':
             return 'panic'
